@@ -52,7 +52,7 @@ pub fn check(tier: &str) -> i32 {
     let res = par_map(&work, threads(), |wi, (n, restart)| -> Result<(Vec<String>, usize), String> {
         let cfg = SysConfig { shards: *n, fill_factor: 128, event_per_zone: 8, ..Default::default() };
         let dir = scratch.dir.join(format!("n{wi}"));
-        let mut l1 = vec![Op::Cmd { text: "DEFINE t FIELDS { k: \"int\", c: \"string\" }".into() }];
+        let mut l1 = vec![Op::Cmd { text: "DEFINE t FIELDS { k: \"int\", c: \"string\" }".into() }, Op::Cmd { text: "DEFINE t2 FIELDS { k: \"int\", c: \"string\" }".into() }];
         for (i, c) in ctxs.iter().enumerate() {
             l1.push(Op::Cmd { text: format!("STORE t FOR {} PAYLOAD {}", quote(c), json!({"k": i as i64 * 2, "c": c})) });
         }
@@ -63,9 +63,15 @@ pub fn check(tier: &str) -> i32 {
         for (i, c) in ctxs.iter().enumerate() {
             l2.push(Op::Cmd { text: format!("STORE t FOR {} PAYLOAD {}", quote(c), json!({"k": i as i64 * 2 + 1, "c": c})) });
         }
+        // a second event type for the first contexts: the context, not the (type, context) pair, owns the shard
+        let n2 = 60.min(ctxs.len());
+        for (i, c) in ctxs.iter().take(n2).enumerate() {
+            l2.push(Op::Cmd { text: format!("STORE t2 FOR {} PAYLOAD {}", quote(c), json!({"k": 1_000_000 + i as i64, "c": c})) });
+        }
         let mut qs: Vec<String> = ctxs.iter().map(|c| format!("QUERY t FOR {}", quote(c))).collect();
         qs.push("QUERY t".into());
         qs.extend(ctxs.iter().take(40).map(|c| format!("REPLAY t FOR {}", quote(c))));
+        qs.extend(ctxs.iter().take(n2).map(|c| format!("QUERY t2 FOR {}", quote(c))));
         l2.push(Op::Observe { queries: qs.clone() });
         let lives = vec![LifeSpec { ops: l1, snap: SnapMode::Off, fsmon: false }, LifeSpec { ops: l2, snap: SnapMode::Off, fsmon: false }];
         let rr = run_lifetimes(&dir, &cfg, 21 + wi as u64, &lives, false)?;
@@ -134,6 +140,21 @@ pub fn check(tier: &str) -> i32 {
             sorted.sort();
             if sorted != vec![i * 2, i * 2 + 1] {
                 viol.push(format!("scoped-replay: shards={n} restart={restart} REPLAY t FOR {c:?} returned k={ks:?}"));
+            }
+        }
+        // the second event type of a context: complete, and tagged with the same shard
+        for (j, c) in ctxs.iter().take(n2).enumerate() {
+            let rep = &obs.replies[ctxs.len() + 1 + 40.min(ctxs.len()) + j];
+            judged += 1;
+            let ks: Vec<i64> = rep.rows.iter().filter_map(|r| r.get("k").and_then(|v| v.as_i64())).collect();
+            if ks != vec![1_000_000 + j as i64] {
+                viol.push(format!("scoped-read: shards={n} restart={restart} QUERY t2 FOR {c:?} returned k={ks:?}"));
+            }
+            let tags: BTreeSet<usize> = rep.rows.iter().filter_map(|r| r.get("event_id").and_then(|v| v.as_u64())).map(shard_of).collect();
+            if let (Some(t2), Some(t1)) = (tags.iter().next(), ctx_shard.get(c)) {
+                if t2 != t1 {
+                    viol.push(format!("split-context: shards={n} context {c:?}: events of type t carry shard {t1}, events of type t2 shard {t2}"));
+                }
             }
         }
         // the WAL directory that holds a context's second event (kill restart keeps the first too) agrees with the id tag
@@ -206,7 +227,7 @@ pub fn check(tier: &str) -> i32 {
         coverage: json!({
             "evaluations": judged,
             "distinct_nontrivial": ctxs.len() * work.len(),
-            "rule": format!("{} context ids (all strings of length <= 3 over a 9-symbol alphabet incl. upper/lower case, punctuation and a non-ASCII letter (length 3 thinned in quick), case / whitespace variants, CJK, 1 KB ids) x shard counts 1..8, 11, 12, 16 x restart kind {{clean shutdown, kill}}: one STORE per context in each of two process lifetimes (different hash seeds), then QUERY FOR each context, REPLAY FOR 40 of them, one unscoped QUERY, and the WAL directories on disk; distinct_nontrivial = (context, shard count, restart) triples", ctxs.len()),
+            "rule": format!("{} context ids (all strings of length <= 3 over a 9-symbol alphabet incl. upper/lower case, punctuation and a non-ASCII letter (length 3 thinned in quick), case / whitespace variants, CJK, 1 KB ids) x shard counts 1..8, 11, 12, 16 x restart kind {{clean shutdown, kill}}: one STORE per context in each of two process lifetimes (different hash seeds), then QUERY FOR each context, REPLAY FOR 40 of them, a second event type stored and read for 60 of them, one unscoped QUERY, and the WAL directories on disk; distinct_nontrivial = (context, shard count, restart) triples", ctxs.len()),
             "samples": ctxs.iter().step_by((ctxs.len() / 10).max(1)).take(10).map(|c| json!(if c.len() > 40 { format!("{}...<{} bytes>", &c.chars().take(20).collect::<String>(), c.len()) } else { c.clone() })).collect::<Vec<_>>(),
             "contexts": ctxs.len(),
             "shard_counts": shard_counts,
